@@ -829,6 +829,25 @@ Json IoHarness::gen_c08(uint64_t runseed, const std::string &tier) {
 	plan["table"] = d.to_json();
 	plan["config"] = gen_config(knob, true);
 	plan["writer"] = Json(gen.chance(0.75) ? "cxx" : "c");
+	// A third of the runs write over a file that already exists at the target path: the same shape with other
+	// coefficients (so that any blend of old and new bytes is a structurally valid file), or an unrelated table.
+	// Drawn from its own stream so that the rest of the plan does not depend on it.
+	{
+		Rng pre(runseed, "preexisting");
+		if (pre.chance(0.33)) {
+			if (pre.chance(0.6)) plan["preexisting"] = Json("same_shape");
+			else {
+				plan["preexisting"] = Json("other");
+				GenLimits l2;
+				l2.max_dims = 4; l2.max_aux = 12; l2.quote_permille = 0; l2.max_order = 3;
+				int sc = (int)pre.below(3);
+				if (sc == 0) { l2.min_coeffs = 1; l2.max_coeffs = 3000; }
+				else if (sc == 1) { l2.min_coeffs = 3000; l2.max_coeffs = 40000; }
+				else { l2.min_coeffs = 40000; l2.max_coeffs = 200000; }
+				plan["old_table"] = gen_table(pre, l2).to_json();
+			}
+		}
+	}
 	Json ops = Json::array();
 	bool crash_arm = gen.chance(0.5);
 	if (crash_arm) {
@@ -931,7 +950,40 @@ void IoHarness::exec_c08(const Json &plan, Env &env) {
 	const std::string out = "/sim/out.fits";
 	const char *opn = w.opname();
 
+	// ---- a file that already exists at the target path (optional). It is produced by the library's own
+	// writer from a second table, so that its layout is exactly what the writer under test produces.
+	disk::Image old;
+	std::string pre = plan.gets("preexisting", "none");
+	if (pre != "none") {
+		TableSpec os;
+		bool have = true;
+		if (pre == "same_shape") {
+			os = table;
+			for (auto &c : os.coeff) c = -c + 1.0f;
+			if (!os.coeff.empty()) os.coeff[0] = (table.coeff[0] == 7.25f) ? 8.5f : 7.25f;
+			os.aux = spec.aux;
+		} else {
+			TableDesc od;
+			if (TableDesc::from_json(plan["old_table"], od, err)) os = realize(od); else have = false;
+		}
+		if (have) {
+			ctx.crumb("setup|write pre-existing file");
+			disk::put("/sim/o.fits", encode_fits(os));
+			TabBox ob(env.L);
+			ReadOutcome ro = cxx_read_disk(ob.make(), "/sim/o.fits");
+			if (ro.ok) {
+				try { ob.get().write_fits("/sim/old.fits"); old.exists = disk::get("/sim/old.fits", old.bytes); } catch (std::exception &) {}
+			} else if (ob.get().get_ndim()) ob.abandon();
+			env.drain("setup", true);
+			disk::unlink("/sim/o.fits"); disk::unlink("/sim/old.fits");
+		}
+		if (old.exists) { ctx.count(std::string("c08:preexisting_") + pre); ctx.log.ev("pre-existing file kind=%s bytes=%zu", pre.c_str(), old.bytes.size()); }
+		else ctx.log.ev("pre-existing file kind=%s could not be produced; target starts absent", pre.c_str());
+	}
+	auto reset_target = [&]() { disk::unlink(out); if (old.exists) disk::put(out, old.bytes); };
+
 	// ---- step 1: fault-free recording
+	reset_target();
 	disk::set_config(cfg);
 	disk::clear_oplog();
 	ctx.crumb("%s|none|record", opn);
@@ -971,7 +1023,14 @@ void IoHarness::exec_c08(const Json &plan, Env &env) {
 	auto crash_one = [&](size_t k, uint64_t b, bool mem) -> bool {   // true = violation
 		if (k > L.size()) k = L.size();
 		if (k < L.size() && L[k].kind == disk::OP_WRITE && L[k].done) b = b % L[k].done; else b = 0;
-		disk::Image ci = disk::crash_image(L, out, k, b, disk::Image());
+		disk::Image ci = disk::crash_image(L, out, k, b, old);
+		// the old file, byte for byte: nothing of this write has reached it yet (it is not a partial file of this write)
+		if (old.exists && ci.exists && ci.bytes == old.bytes) {
+			ctx.log.ev("crash k=%zu b=%llu -> pre-existing file untouched", k, (unsigned long long)b);
+			ctx.count("probe:crash_image_old_file_untouched"); ctx.count("c08:crash_images");
+			env.state(std::string("crash:") + (k < L.size() ? disk::kind_name(L[k].kind) : "end"), b ? "torn-write" : "op-boundary", "old-untouched");
+			return false;
+		}
 		ctx.crumb("read_fits%s|crash|k=%zu b=%llu", mem ? "_mem" : "", k, (unsigned long long)b);
 		ImageCheck ic = check_image(env, ci, table, mem);
 		env.nontrivial = true;
@@ -1007,7 +1066,7 @@ void IoHarness::exec_c08(const Json &plan, Env &env) {
 		}
 		std::string fk = on_class(faults);
 		if (!applicable || fl.empty()) { ctx.log.ev("fault %s inapplicable (no such operation in the recording)", fk.c_str()); ctx.count("c08:fault_inapplicable"); return false; }
-		disk::unlink(out);
+		reset_target();
 		disk::set_config(cfg);
 		disk::clear_oplog();
 		disk::clear_fired();
@@ -1048,6 +1107,12 @@ void IoHarness::exec_c08(const Json &plan, Env &env) {
 			return false;
 		}
 		ctx.count("probe:writer_reported_failure");
+		if (old.exists && left.exists && left.bytes == old.bytes) {
+			ctx.log.ev("fault %s fired=%d -> writer failed (%s), pre-existing file untouched", desc.c_str(), (int)any_fired, clip(r.what, 60).c_str());
+			ctx.count("probe:leftover_old_file_untouched");
+			env.state(opn, fk + ":" + fl[0].err, "failed-old-untouched");
+			return false;
+		}
 		ImageCheck ic = check_image(env, left, table, (fl[0].at & 1) != 0);
 		ctx.log.ev("fault %s fired=%d -> writer failed (%s), leftover %s %s", desc.c_str(), (int)any_fired, clip(r.what, 60).c_str(), left.exists ? verdict_name(ic.v) : "absent", clip(ic.what, 60).c_str());
 		ctx.count(std::string("probe:leftover_") + (left.exists ? verdict_name(ic.v) : "absent"));
@@ -1900,6 +1965,10 @@ std::vector<Json> IoHarness::simplify(const Json &plan, const Json &aux) {
 		if (cf.geti("bufsize", -1) != -1) { Json c = plan; c["config"]["bufsize"] = Json(-1); out.push_back(c); }
 	}
 	if (prop == "C08") {
+		if (plan.has("preexisting")) {
+			{ Json c = plan; c.erase("preexisting"); c.erase("old_table"); out.push_back(c); }
+			if (plan.gets("preexisting") == "other") { Json c = plan; c["preexisting"] = Json("same_shape"); c.erase("old_table"); out.push_back(c); }
+		}
 		if (plan.gets("writer") == "c") { Json c = plan; c["writer"] = Json("cxx"); out.push_back(c); }
 		for (size_t i = 0; i < plan["ops"].size(); i++) {
 			const Json &op = plan["ops"].a[i];
